@@ -3,6 +3,10 @@ import Tahoe.Mutable.RetrieveSelectLemmas
 /-! C10 — mutable reads return only published versions (property theorems).
 Cryptographic assumptions are explicit hypotheses; `Tahoe.C10.Inst` shows they are jointly
 satisfiable by a concrete (toy, symbolic) instance, so no theorem below is vacuous.
+Models: Tahoe/Mutable/Authentic.lean (share acceptance, signature cache, signed fields, share hash tree
+of a Retrieve, decryption salt, Dolev–Yao terms), Tahoe/Mutable/RetrieveSelect.lean (version identity
+with offsets, `best`, the Retrieve selection loop, `download_best_version`'s retry); lemmas:
+AuthenticLemmas.lean, RetrieveSelectLemmas.lean.  One open finding: `offset_table_counterexample`.
 
 ## Coverage of the statement
 
